@@ -1,17 +1,30 @@
 #!/bin/bash
-# usage: eval_seed.sh <patch.diff> : apply to /repo, run all quick checks, undo; print which properties raise
+# usage: eval_seed.sh <patch.diff> [json-out]
+# Apply a seeded change to /repo, run all quick checks (evidence redirected to a scratch directory so
+# that the committed evidence keeps describing the unchanged tree), undo the change, print which
+# properties raise.  Never run while something else (a test run) is using /repo's working tree.
 set -u
 patch=$1
+jout=${2:-}
 cd /repo
 if ! git diff --quiet; then echo "REPO DIRTY"; exit 3; fi
 if ! git apply --check "$patch" 2>/dev/null; then echo "PATCH DOES NOT APPLY"; exit 4; fi
 git apply "$patch"
+ev=$(mktemp -d /tmp/seedev.XXXXXX)
 out=""
+rules=""
 for i in $(seq -w 1 18); do
-  r=$(/venv/bin/python /verif/check C$i --tier quick 2>&1)
+  r=$(VERIF_EVIDENCE_DIR=$ev /venv/bin/python /verif/check C$i --tier quick 2>&1)
   rc=$?
-  if [ $rc -eq 1 ]; then out="$out C$i"; echo "$r" | grep -B2 "^VIOLATION" | grep -v "^VIOLATION\|^--" | cut -c1-260; fi
+  if [ $rc -eq 1 ]; then
+    out="$out C$i"
+    echo "$r" | grep -B2 "^VIOLATION" | grep -v "^VIOLATION\|^--" | cut -c1-260
+    rules="$rules $(echo "$r" | grep -oE "^  C[0-9]+\.R[0-9a-z]+" | sort -u | tr -d ' ' | tr '\n' ' ')"
+  fi
   if [ $rc -eq 2 ]; then out="$out C$i(exit2)"; echo "$r" | grep "ANALYSIS-ERROR" | cut -c1-200; fi
 done
 git checkout -- . ; git clean -fdq strax 2>/dev/null
+rm -rf $ev
+echo "RULES:$rules"
 echo "RAISED:$out"
+if [ -n "$jout" ]; then printf '{"raised": "%s", "rules": "%s"}\n' "$(echo $out)" "$(echo $rules)" > $jout; fi
